@@ -122,7 +122,8 @@ prop("C02",
      units=lambda tier: with_portable("c02", "c02.cpp", tier, 80000, 1500000),
      level="exploration",
      rule=("(key, tweak, blocks, rounds 5..8, mode, tweak path in {never set, set_tweak, set_tweak(NULL) after a non-zero "
-           "tweak, per-call}) through mantis_set_key / mantis_set_tweak / mantis_ecb_crypt / mantis_ecb_crypt_tweaked vs. "
+           "tweak, per-call}, over one or two keyings of the same schedule (re-key over a stored non-zero tweak, same or another "
+           "round count)) through mantis_set_key / mantis_set_tweak / mantis_ecb_crypt / mantis_ecb_crypt_tweaked vs. "
            "the MANTIS-r specification model, plus the direct law crypt(stored t) == crypt_tweaked(t); non-trivial = some "
            "tweak is non-zero and the key is not the published one" + GEN_NOTE),
      assumptions=MODEL_ASSUME + BUILD_ASSUME,
